@@ -244,6 +244,8 @@ def check_C08(ctx):
     engines(ctx, 'C08', ['EngineParallelMC_cancel.cfg'], ['EngineSerialMC_cancel.cfg'], ['C08'])
     rule = ctx_rule(ctx)
     scen = vt.tlc_generate(ctx, 'GenWire', 'C08', 0)
+    # stalled HTTP providers / resolvers: the provider scripts of Enrich!PubAll, the slow-resolver documents of GenDoc!C18All
+    scen += pub_scenarios(ctx)
     wire_family(ctx, 'C08', scen, rule, nontrivial=lambda s, es: True)
     ctx.extra['rule'] = rule + '; plus ' + (WIRE_RULE % 'C08All (silence, floods, SACK handshake stalls, cancellation grid incl. ties)')
     vt.write_evidence(ctx, 'model_checking', ctx_rule(ctx), exhaustive=True)
@@ -448,6 +450,64 @@ def check_C12(ctx):
         ctx.extra['rule'] = rule
     vt.write_evidence(ctx, 'model_checking', ctx.extra.get('rule', 'see DESIGN.md C12'), exhaustive=True)
 
+DOC_RULE = ('documents enumerated by TLC from GenDoc!%s, built as real result.Results, run through Enrich / Normalize / RemovePrivateHops and json.Marshal; '
+            'the marshalled JSON (numbers in 1/1000 units) is the trace TLC validates against DocProps (relations on the published field names) and against the '
+            'document algebra ResultAlg!Process; distinct by label')
+
+def check_C16(ctx):
+    vt.tlc_design(ctx, 'Result', label='document algebra: C16/C17 relations for all documents in small scope + permutation invariance')
+    scen = vt.tlc_generate(ctx, 'GenDoc', 'C16', 0, extra_env={})
+    wire_family(ctx, 'C16', scen, DOC_RULE % 'C16All (0..2 runs, hop lists over empty/v4/v6/mapped addresses, RTT sample lists of length 0..4 over {0,1,2,7} incl. every permutation)',
+                nontrivial=lambda s, es: True)
+    vt.write_evidence(ctx, 'model_checking', ctx_rule(ctx), exhaustive=True)
+
+def check_C17(ctx):
+    vt.tlc_design(ctx, 'Result', label='document algebra: C17 relations (redaction) for all documents in small scope')
+    scen = vt.tlc_generate(ctx, 'GenDoc', 'C17', 0)
+    # through RunTraceroute and the HTTP handler over the wire: routers with private / public boundary addresses
+    scen += vt.tlc_generate(ctx, 'GenRun', 'C17', 0)
+    wire_family(ctx, 'C17', scen, DOC_RULE % 'C17All (every private block boundary and its public neighbours, mapped forms, empty hops, with/without enrichment, skip on/off)' +
+                '; plus GenRun!C17All through RunTraceroute and the HTTP handler', nontrivial=lambda s, es: True)
+    vt.write_evidence(ctx, 'model_checking', ctx_rule(ctx), exhaustive=True)
+
+def cache_scenarios(ctx, cfg):
+    import re
+    r = vt.run_tlc('Enrich', cfg=cfg, env={'VT_GEN': 'cache', 'VT_OUT': os.path.join(ctx.scratch, 'unused')}, timeout=900)
+    ctx.design.append({'module': 'Enrich', 'cfg': cfg, 'generated': r.generated, 'distinct': r.distinct, 'wall_s': round(r.wall, 1), 'violated': r.violated})
+    ctx.states += r.distinct; ctx.transitions += r.generated
+    if not r.ok():
+        raise Infra('Enrich cache design check failed: ' + vt.filtered(r.out, 30))
+    out = []
+    for line in r.out.splitlines():
+        m = re.match(r'^<<"OPS", "(.*)">>$', line)
+        if m:
+            ops = json.loads(m.group(1).encode().decode('unicode_escape'))
+            k = len(out)
+            out.append({'id': 'C18/cache/raw/%d' % k, 'label': 'cache/raw/' + '-'.join((o['op'][0] + o['key'] + o['cb'][:1]) if o['op'] == 'get' else 'adv%d' % (o['ms'] % 10) for o in ops),
+                        'kind': 'cache', 'extra': {'ttl_ms': 3600000, 'ops': ops}})
+            if k % 4 == 0:   # the same sequence through reversedns.GetReverseDns (1 h TTL)
+                dops = [dict(o, via='dns', key={'a': '192.0.2.1', 'b': '2001:db8::7'}.get(o['key'], o['key'])) for o in ops]
+                out.append({'id': 'C18/cache/dns/%d' % k, 'label': 'cache/dns/' + out[-1]['label'][10:], 'kind': 'cache', 'extra': {'ttl_ms': 3600000, 'ops': dops}})
+    return out
+
+def pub_scenarios(ctx):
+    out = os.path.join(ctx.scratch, 'pub.ndjson')
+    r = vt.run_tlc('Enrich', env={'VT_GEN': 'pub', 'VT_OUT': out}, workers=1, timeout=300)
+    if not r.ok() or not os.path.exists(out):
+        raise Infra('Enrich provider generator failed: ' + vt.filtered(r.out, 30))
+    return [json.loads(l) for l in open(out) if l.strip()]
+
+def check_C18(ctx):
+    scen = vt.tlc_generate(ctx, 'GenDoc', 'C18', 400 if ctx.quick() else 0)
+    scen += cache_scenarios(ctx, 'Enrich.cfg' if ctx.quick() else 'Enrich_6.cfg')[: (3000 if ctx.quick() else 10**9)]
+    scen += pub_scenarios(ctx)
+    wire_family(ctx, 'C18', scen,
+                '(a) ' + (DOC_RULE % 'C18All (address multisets with duplicates / empty / mapped forms x per-address resolver behaviour names|two|empty|error|slow)') +
+                '; (b) every operation sequence of the cache state machine Enrich.tla (get k ok|err, advance ttl-1|2|ttl+1) explored by TLC, replayed on cache.GetWithExpiration '
+                'and reversedns.GetReverseDns under the virtual clock; (c) every provider script of Enrich!PubAll (10 behaviours ^ 3 providers) on publicip.GetPublicIP with a scripted transport',
+                nontrivial=lambda s, es: True)
+    vt.write_evidence(ctx, 'model_checking', ctx_rule(ctx), exhaustive=not ctx.quick())
+
 def check_C07(ctx):
     cfgs = ['EngineParallelMC.cfg', 'EngineParallelMC_faults.cfg']
     if not ctx.quick():
@@ -456,7 +516,7 @@ def check_C07(ctx):
     vt.write_evidence(ctx, 'model_checking', ctx_rule(ctx), exhaustive=True)
 
 CHECKS = {
-    'C01': check_C01, 'C02': check_C02, 'C03': check_C03, 'C04': check_C04, 'C05': check_C05, 'C06': check_C06, 'C07': check_C07, 'C08': check_C08, 'C09': check_C09, 'C10': check_C10, 'C11': check_C11, 'C12': check_C12, 'C15': check_C15, 'C20': check_C20, 'C19': check_C19,
+    'C01': check_C01, 'C02': check_C02, 'C03': check_C03, 'C04': check_C04, 'C05': check_C05, 'C06': check_C06, 'C07': check_C07, 'C08': check_C08, 'C09': check_C09, 'C10': check_C10, 'C11': check_C11, 'C12': check_C12, 'C15': check_C15, 'C16': check_C16, 'C17': check_C17, 'C18': check_C18, 'C20': check_C20, 'C19': check_C19,
 }
 
 def replay(ctx, path):
